@@ -85,6 +85,12 @@ class Monitor(object):
             hub.violate("C14", "exception", {"type": exc[0], "where": where, "message": exc[1][:200],
                                              "after_priority_preemption_of_blocked_customer": self.preempted_blocked})
             return
+        if status == "truncated" and self.entry[0] == "max_time" and hub.nevents >= hub.max_events:
+            # finite arrival streams and a finite horizon: a run that is still executing events after the event bound
+            # (several times more than any run of the family needs) does not terminate normally (livelock)
+            hub.violate("C14", "no_progress_towards_horizon", {"events_executed": hub.nevents, "clock": Q.current_time if Q else None,
+                                                               "T": self.entry[1]})
+            return
         if status != "ok" or Q is None:
             return
         if hub.nevents >= 2:
